@@ -289,6 +289,9 @@ def write_evidence(mod, pid, tier, seed, n, agg, wall, known_seen, new_keys, wor
     }
     if agg.extra:
         cov["extra"] = dict(sorted(agg.extra.items()))
+    ee = getattr(mod, "evidence_extra", None)
+    if ee is not None:
+        cov.update(ee(tier))
     ex = getattr(mod, "exhaustive", None)
     if ex is not None and ex(tier):
         cov["exhaustive"] = True
